@@ -67,8 +67,19 @@ pub trait Subject: Sync {
 
 pub struct Real;
 
-fn js(s: &str) -> &JavaStr { JavaStr::from_str(s) }
-fn st(s: &JavaStr) -> String { s.to_string() }
+/// In harness strings the private-use character U+E000 STANDS FOR AN UNPAIRED SURROGATE (U+D800): a Rust `str` cannot hold
+/// one, a Java string (and a class file) can, and for every grammar judged here it is an ordinary character.
+pub const SURROGATE_STANDIN: char = '\u{E000}';
+fn jstring(s: &str) -> JavaString {
+    if !s.contains(SURROGATE_STANDIN) { return JavaString::from(s); }
+    let mut out = JavaString::new();
+    for c in s.chars() { if c == SURROGATE_STANDIN { out.push_java(java_string::JavaCodePoint::from_u32(0xD800).expect("surrogate code point")); } else { out.push(c); } }
+    out
+}
+/// `&JavaStr` for a harness string (owned only when a stand-in has to be replaced)
+fn js(s: &str) -> std::borrow::Cow<'_, JavaStr> { if s.contains(SURROGATE_STANDIN) { std::borrow::Cow::Owned(jstring(s)) } else { std::borrow::Cow::Borrowed(JavaStr::from_str(s)) } }
+/// back to a harness string: unpaired surrogates become the stand-in again
+fn st(s: &JavaStr) -> String { s.chars().map(|c| c.as_char().unwrap_or(SURROGATE_STANDIN)).collect() }
 
 fn proj_type(t: &Type) -> RefType {
     let p = |c: char| RefType { dims: 0, base: Base::Prim(c), array_variant: false };
@@ -93,12 +104,12 @@ fn unproj_type(t: &RefType) -> Type {
         match &t.base {
             Base::Prim(c) => match c { 'B' => Type::B, 'C' => Type::C, 'D' => Type::D, 'F' => Type::F, 'I' => Type::I, 'J' => Type::J, 'S' => Type::S, _ => Type::Z },
             // SAFETY (library-level): the generator only produces valid object class names
-            Base::Obj(n) => Type::Object(unsafe { ObjClassName::from_inner_unchecked(JavaString::from(n.as_str())) }),
+            Base::Obj(n) => Type::Object(unsafe { ObjClassName::from_inner_unchecked(jstring(n.as_str())) }),
         }
     } else {
         let a = match &t.base {
             Base::Prim(c) => match c { 'B' => ArrayType::B, 'C' => ArrayType::C, 'D' => ArrayType::D, 'F' => ArrayType::F, 'I' => ArrayType::I, 'J' => ArrayType::J, 'S' => ArrayType::S, _ => ArrayType::Z },
-            Base::Obj(n) => ArrayType::Object(unsafe { ClassName::from_inner_unchecked(JavaString::from(n.as_str())) }),
+            Base::Obj(n) => ArrayType::Object(unsafe { ClassName::from_inner_unchecked(jstring(n.as_str())) }),
         };
         Type::Array(t.dims.min(255) as u8, a)
     }
@@ -111,7 +122,7 @@ impl Subject for Real {
         // the slices are built unchecked on purpose: parse() is the function that has to reject
         match kind {
             Kind::Field => {
-                let sl = unsafe { FieldDescriptorSlice::from_inner_unchecked(js(s)) };
+                let jj = js(s); let sl = unsafe { FieldDescriptorSlice::from_inner_unchecked(&*jj) };
                 let parsed = match guard(|| sl.parse()) { Err(p) => return Out::Panic(site(p)), Ok(Err(_)) => return Out::Refused, Ok(Ok(v)) => v };
                 let structure = RefDesc::Field(proj_type(&parsed.0));
                 let (rewritten, reparse_equal) = match guard(|| parsed.write()) {
@@ -124,7 +135,7 @@ impl Subject for Real {
                 Out::Ok(ParseObs { structure, rewritten, reparse_equal })
             }
             Kind::Return => {
-                let sl = unsafe { ReturnDescriptorSlice::from_inner_unchecked(js(s)) };
+                let jj = js(s); let sl = unsafe { ReturnDescriptorSlice::from_inner_unchecked(&*jj) };
                 let parsed = match guard(|| sl.parse()) { Err(p) => return Out::Panic(site(p)), Ok(Err(_)) => return Out::Refused, Ok(Ok(v)) => v };
                 let structure = RefDesc::Return(parsed.0.as_ref().map(proj_type));
                 let (rewritten, reparse_equal) = match guard(|| parsed.write()) {
@@ -137,7 +148,7 @@ impl Subject for Real {
                 Out::Ok(ParseObs { structure, rewritten, reparse_equal })
             }
             Kind::Method => {
-                let sl = unsafe { MethodDescriptorSlice::from_inner_unchecked(js(s)) };
+                let jj = js(s); let sl = unsafe { MethodDescriptorSlice::from_inner_unchecked(&*jj) };
                 let parsed = match guard(|| sl.parse()) { Err(p) => return Out::Panic(site(p)), Ok(Err(_)) => return Out::Refused, Ok(Ok(v)) => v };
                 let structure = RefDesc::Method(parsed.parameter_descriptors.iter().map(proj_type).collect(), parsed.return_descriptor.as_ref().map(proj_type));
                 let (rewritten, reparse_equal) = match guard(|| parsed.write()) {
@@ -187,11 +198,11 @@ impl Subject for Real {
     fn name(&self, t: NameType, s: &str) -> Out<NameObs> {
         macro_rules! obs {
             ($owned:ty, $slice:ty) => {{
-                let j = js(s);
+                let jj = js(s); let j: &JavaStr = &jj;
                 match guard(|| NameObs {
                     is_valid: <$owned>::is_valid(j),
                     try_slice: <&$slice>::try_from(j).ok().map(|x| st(x.as_inner())),
-                    try_owned: <$owned>::try_from(JavaString::from(s)).ok().map(|x| st(x.as_slice().as_inner())),
+                    try_owned: <$owned>::try_from(jstring(s)).ok().map(|x| st(x.as_slice().as_inner())),
                     try_owned_ref: <$owned as TryFrom<&JavaStr>>::try_from(j).ok().map(|x| st(x.as_slice().as_inner())),
                 }) { Ok(o) => Out::Ok(o), Err(p) => Out::Panic(site(p)) }
             }};
@@ -209,7 +220,7 @@ impl Subject for Real {
 
     fn split(&self, s: &str) -> Out<SplitObs> {
         // precondition of the helpers: `s` is a valid object class name (the caller guarantees it by the reference predicate)
-        let sl = unsafe { ObjClassNameSlice::from_inner_unchecked(js(s)) };
+        let jj = js(s); let sl = unsafe { ObjClassNameSlice::from_inner_unchecked(&*jj) };
         match guard(|| {
             let split = sl.split_inner_class_parent_and_name();
             let name = sl.get_inner_class_name();
@@ -221,8 +232,8 @@ impl Subject for Real {
     }
 
     fn join(&self, parent: &str, inner: &str) -> Out<(String, bool)> {
-        let p = unsafe { ObjClassName::from_inner_unchecked(JavaString::from(parent)) };
-        let i = unsafe { ObjClassNameSlice::from_inner_unchecked(js(inner)) };
+        let p = unsafe { ObjClassName::from_inner_unchecked(jstring(parent)) };
+        let ji = js(inner); let i = unsafe { ObjClassNameSlice::from_inner_unchecked(&*ji) };
         match guard(|| { let j = ObjClassName::from_inner_class(p, i); let v = ObjClassName::is_valid(j.as_slice().as_inner()); (st(j.as_slice().as_inner()), v) }) {
             Ok(o) => Out::Ok(o), Err(p) => Out::Panic(site(p)),
         }
